@@ -3,8 +3,8 @@ import gens
 from props.common import TRUSTED_BASE, ASSUMPTIONS
 
 ID = "C01"
-LEAN_MODULES = ["LexVerif.Props.C01", "LexVerif.Props.RoundNE", "LexVerif.Props.TablesParse"]
-GEN = ["parse_tables"]
+LEAN_MODULES = ["LexVerif.Props.C01", "LexVerif.Props.RoundNE", "LexVerif.Props.TablesParse", "LexVerif.Props.Literals.ParseFloat", "LexVerif.Props.Literals.ParseInteger"]
+GEN = ["parse_tables", "literals"]
 TRUSTED = TRUSTED_BASE + [
     "full correctness of Eisel-Lemire / Bellerophon / big-integer slow path is NOT proved in Lean: the proved part is the oracle (roundNE) and the tables; the algorithms are compared with the oracle on number-theoretic worst cases",
 ]
